@@ -35,7 +35,12 @@ def world (e : E) (v : Vamm.V) : World :=
     feed := .mock { owner := 63, price := some (10 * D) },
     ledger := { bal := [(100, 10000 * D), (ENGINE, 5000 * D), (IFUND, 5000 * D)], allow := [(100, 10000 * D)] } }
 
-/-! ### C17: a stale zero-size record of the opposite direction drops the caller's limit -/
+/-! ### C17: a stale zero-size record of the opposite direction no longer drops the caller's limit
+
+  (Before `open_position` treated a stored record of size zero like an absent one, the third transaction
+  below went through the reversal path — `swap_output` of 0 base, then `swap_input` of the whole notional
+  with `base_asset_limit = 0` — and was accepted although it sold about 60 base against a limit of 1:
+  clause `open-base-limit-not-honoured(sell)` failed.) -/
 
 /-- fresh deployment, price 10 -/
 def a0 : World := world (eng false (5 * 10^4) (25 * 10^4) []) (vamm (10000 * D) (1000 * D) 0 1800 Integer.zero)
@@ -50,11 +55,25 @@ theorem a2_stale : a2.engine.positions = [⟨10, 100, .addToAmm, Integer.zero, 0
   decide +kernel
 
 set_option maxRecDepth 100000 in
-/-- the user now sells with `base_asset_limit = 1` (give at most 1 unit of base): the order goes through
-    the reversal path, the limit is replaced by 0, and about 60.36 base are sold -/
+/-- the user now sells with `base_asset_limit = 1` (give at most 1 unit of base): the order takes the
+    increase path, its `swap_input` carries the limit, the vAMM refuses (the order would sell 63.829788
+    base) and the transaction is REJECTED; no clause of C17 fails -/
 theorem c17_witness :
-    Spec.C17.check (modelStep a2 ⟨4, 3000⟩ 100 ⟨0, false⟩ (.engine (.openPosition 10 .sell (60 * D) (10 * D) 1)))
-      = ["open-base-limit-not-honoured(sell)"] := by decide +kernel
+    (modelStep a2 ⟨4, 3000⟩ 100 ⟨0, false⟩ (.engine (.openPosition 10 .sell (60 * D) (10 * D) 1))).ok = false
+    ∧ Spec.C17.check (modelStep a2 ⟨4, 3000⟩ 100 ⟨0, false⟩ (.engine (.openPosition 10 .sell (60 * D) (10 * D) 1)))
+      = [] := by decide +kernel
+
+set_option maxRecDepth 100000 in
+/-- the limit is applied exactly: the same order with limit 63.829788 (the base it sells) is accepted and
+    leaves a short of that size, with limit 63.829787 it is rejected -/
+theorem c17_limit_exact :
+    (modelStep a2 ⟨4, 3000⟩ 100 ⟨0, false⟩ (.engine (.openPosition 10 .sell (60 * D) (10 * D) 63829788))).ok = true
+    ∧ (readPosition (step a2 ⟨4, 3000⟩ 100 ⟨0, false⟩ (.engine (.openPosition 10 .sell (60 * D) (10 * D) 63829788))).engine
+          10 100).size = Integer.newNegative 63829788
+    ∧ Spec.C17.check (modelStep a2 ⟨4, 3000⟩ 100 ⟨0, false⟩ (.engine (.openPosition 10 .sell (60 * D) (10 * D) 63829788)))
+      = []
+    ∧ (modelStep a2 ⟨4, 3000⟩ 100 ⟨0, false⟩ (.engine (.openPosition 10 .sell (60 * D) (10 * D) 63829787))).ok = false := by
+  decide +kernel
 
 /-- a record whose sign disagrees with its direction (excluded by the invariant `SignDir`) -/
 def badSign : World :=
@@ -106,11 +125,16 @@ def staleNotional : World :=
     (vamm (10000 * D) (1000 * D) 0 1800 Integer.zero)
 
 set_option maxRecDepth 100000 in
-/-- a tiny opposite order closes it: the engine pays out the margin (100), the property's formula
-    (margin + PnL with PnL = 0 − notional) gives 50 -/
-theorem c11_needs_staleClean :
+/-- a tiny opposite order used to "close" it through the reversal path (the engine paid out the margin 100,
+    the property's formula — margin + PnL with PnL = 0 − notional — gave 50: the former hypothesis
+    `StaleClean` of `sat_C11`).  Now the order is an increase: it opens a short of 101 units on top of the
+    stale record (margin 100 + 0.001, notional 50 + 0.001), nothing is paid out, and no clause of C11 fails -/
+theorem c11_stale_notional_ok :
     Spec.C11.check (modelStep staleNotional ⟨2, 1000⟩ 100 ⟨0, false⟩ (.engine (.openPosition 10 .sell 1000 D 0)))
-      = ["funding-skipped-when-closing-by-reversal"] := by decide +kernel
+      = []
+    ∧ (step staleNotional ⟨2, 1000⟩ 100 ⟨0, false⟩ (.engine (.openPosition 10 .sell 1000 D 0))).engine.positions
+      = [⟨10, 100, .removeFromAmm, Integer.newNegative 101, 100001000, 50001000, Integer.zero, 2⟩] := by
+  decide +kernel
 
 /-! ### C15: the size of a partial close -/
 
@@ -132,6 +156,19 @@ set_option maxRecDepth 100000 in
 theorem c15_large_position_witness :
     Spec.C15.check (modelStep (c0 5255512575) ⟨2, 1000⟩ 100 ⟨0, false⟩ (.engine (.closePosition 10 0)))
       = ["partial-close-not-the-configured-fraction[within-requote-rounding]"] := by decide +kernel
+
+set_option maxRecDepth 100000 in
+/-- a long of 10^14 whole units of base against a pool of 1291: 98 % of it drains the quote reserve to
+    1 raw unit (post-trade reserves 1 / 1771252000000000000), the re-quote returns 1.77·10^18 raw base units
+    instead of 9.8·10^19 — far beyond the specification's rounding bound `max(pre, post rate) + 2`.
+    The world satisfies `SignDir`, `CurveRegular` and the mirror property (`SatE.c15_gross_witness_hyps`) but
+    is not reachable from a regular deployment (the base the long holds never was in the pool); it is
+    excluded by `SatC15.PostRateBounded` -/
+theorem c15_gross_witness :
+    Spec.C15.check (modelStep (c0 (10^20)) ⟨2, 1000⟩ 100 ⟨0, false⟩ (.engine (.closePosition 10 0)))
+      = ["partial-close-not-the-configured-fraction[gross]"]
+    ∧ (modelStep (c0 (10^20)) ⟨2, 1000⟩ 100 ⟨0, false⟩ (.engine (.closePosition 10 0))).post.vamms.map
+        (fun p => (p.2.st.quote, p.2.st.base)) = [(1, 1771252000000000000)] := by decide +kernel
 
 /-- the record of `badSign` with a 1 % fluctuation limit -/
 def badSignF : World :=
